@@ -9,9 +9,7 @@
 use crate::exact::{fee_of, parse_dec, prorata};
 use crate::run::World;
 use crate::search::Rng;
-use ats_smart_contract::ask_order::{AskOrderClass, AskOrderStatus, AskOrderV1};
-use ats_smart_contract::bid_order::BidOrderV3;
-use ats_smart_contract::contract_info::ContractInfoV3;
+use crate::format::{AskClass, AskRec, BidRec, ConfigRec, FeeRec};
 use rust_decimal::Decimal;
 use serde_json::{json, Value};
 use std::collections::{BTreeMap, VecDeque};
@@ -255,9 +253,17 @@ impl Scn2 {
                 4 => msg["approvers"] = json!([]),
                 5 => {
                     let p = *rng.pick(&[17u32, 18, 19, 20, 38, 39]);
-                    msg["price_precision"] = json!(p.to_string());
                     let inc = if p <= 38 && rng.chance(70) { 10u128.pow(p) } else { 10u128.pow(18) };
+                    msg["price_precision"] = json!(p.to_string());
                     msg["size_increment"] = json!(inc.to_string());
+                    if rng.chance(25) {
+                        // far above 18, with small low-order 32 / 64 bits (and an increment that is a
+                        // multiple of ten to THOSE)
+                        let low = rng.below(19) as u32;
+                        let big: u128 = *rng.pick(&[1u128 << 32, 1u128 << 64, 3u128 << 32, (1u128 << 96) + (1u128 << 32)]);
+                        msg["price_precision"] = json!((big + low as u128).to_string());
+                        msg["size_increment"] = json!(10u128.pow(low).to_string());
+                    }
                 }
                 6 => msg["size_increment"] = json!("0"),
                 7 => {
@@ -355,14 +361,14 @@ impl Scn2 {
         }
     }
 
-    fn executor(&self, rng: &mut Rng, ci: &Option<ContractInfoV3>) -> String {
+    fn executor(&self, rng: &mut Rng, ci: &Option<ConfigRec>) -> String {
         match ci {
             Some(c) if !c.executors.is_empty() => rng.pick(&c.executors).to_string(),
             _ => "exec".to_string(),
         }
     }
 
-    fn approver(&self, rng: &mut Rng, ci: &Option<ContractInfoV3>) -> String {
+    fn approver(&self, rng: &mut Rng, ci: &Option<ConfigRec>) -> String {
         match ci {
             Some(c) if !c.approvers.is_empty() => rng.pick(&c.approvers).to_string(),
             _ => "approver".to_string(),
@@ -467,7 +473,7 @@ impl Scn2 {
         rng.pick(names).to_string()
     }
 
-    fn create_ask(&mut self, rng: &mut Rng, asks: &[AskOrderV1]) -> Value {
+    fn create_ask(&mut self, rng: &mut Rng, asks: &[AskRec]) -> Value {
         let mut bases: Vec<String> = vec!["base".into()];
         bases.extend(self.convertibles.iter().cloned());
         if !self.convertibles.is_empty() && rng.chance(40) {
@@ -510,7 +516,7 @@ impl Scn2 {
         })
     }
 
-    fn create_bid(&mut self, rng: &mut Rng, ci: &Option<ContractInfoV3>, bids: &[BidOrderV3]) -> Value {
+    fn create_bid(&mut self, rng: &mut Rng, ci: &Option<ConfigRec>, bids: &[BidRec]) -> Value {
         let mut id = self.new_id(rng);
         let mut size = self.size(rng);
         let bias = matches!(self.profile, P2::Match | P2::Migration).then_some(false);
@@ -601,8 +607,8 @@ impl Scn2 {
         })
     }
 
-    fn approve(&self, rng: &mut Rng, ci: &Option<ContractInfoV3>, ask: &AskOrderV1) -> Value {
-        let mut size = ask.size.u128();
+    fn approve(&self, rng: &mut Rng, ci: &Option<ConfigRec>, ask: &AskRec) -> Value {
+        let mut size = ask.size;
         let mut base = "base".to_string();
         let right = self.approver(rng, ci);
         if rng.chance(12) {
@@ -632,17 +638,14 @@ impl Scn2 {
     fn match_step(
         &self,
         rng: &mut Rng,
-        ci: &Option<ContractInfoV3>,
-        asks: &[AskOrderV1],
-        bids: &[BidOrderV3],
+        ci: &Option<ConfigRec>,
+        asks: &[AskRec],
+        bids: &[BidRec],
     ) -> Value {
         let mut ask = rng.pick(asks);
         let mut bid = rng.pick(bids);
         for _ in 0..8 {
-            let pending = matches!(
-                ask.class,
-                AskOrderClass::Convertible { status: AskOrderStatus::PendingIssuerApproval }
-            );
+            let pending = matches!(ask.class, AskClass::Pending);
             if dec(&ask.price) <= dec(&bid.price) && ask.quote == bid.quote.denom && (!pending || rng.chance(15)) {
                 break;
             }
@@ -666,8 +669,8 @@ impl Scn2 {
             95..=97 => (bp + Decimal::new(1, self.precision)).to_string(),
             _ => rng.pick(&["abc", "", "0", "-1"]).to_string(),
         };
-        let rem = bid.base.amount.u128().saturating_sub(bid.accumulated_base.u128());
-        let max = ask.size.u128().min(rem).max(1);
+        let rem = bid.base.amount.saturating_sub(bid.accumulated_base);
+        let max = ask.size.min(rem).max(1);
         let size = match rng.below(100) {
             0..=34 => max,
             35..=46 => max + 1,
@@ -675,8 +678,8 @@ impl Scn2 {
             55..=74 => rng.range(1, max),
             75..=92 => self.increment * rng.range(1, (max / self.increment).max(1)),
             93..=95 => 0,
-            96..=97 => ask.size.u128().max(rem) + 1,
-            _ => ask.size.u128().max(rem),
+            96..=97 => ask.size.max(rem) + 1,
+            _ => ask.size.max(rem),
         };
         let (ask_id, bid_id) = if rng.chance(3) {
             (ask.id.to_uppercase(), bid.id.clone())
@@ -785,7 +788,7 @@ impl Scn2 {
         }
     }
 
-    fn modify(&self, rng: &mut Rng, ci: &Option<ContractInfoV3>) -> Value {
+    fn modify(&self, rng: &mut Rng, ci: &Option<ConfigRec>) -> Value {
         let (approvers, executors, ask_fee, bid_fee, ask_attrs, bid_attrs) = match ci {
             Some(c) => (
                 c.approvers.iter().map(|a| a.to_string()).collect::<Vec<_>>(),
@@ -973,8 +976,23 @@ impl Scn2 {
         let size = self.increment * rng.range(1, 5);
         if rng.chance(50) {
             let owner = self.trader(rng, &["seller1", "seller2"]);
+            // plain, or (40 % where the market has convertibles) a convertible ask as the old
+            // versions stored it: still pending, or approved with the approver's escrow
+            let (base, class) = if !self.convertibles.is_empty() && rng.chance(40) {
+                let con = rng.pick(&self.convertibles).clone();
+                if rng.chance(50) {
+                    (con, json!({"Convertible": {"status": "PendingIssuerApproval"}}))
+                } else {
+                    (con, json!({"Convertible": {"status": {"Ready": {
+                        "approver": "approver",
+                        "converted_base": {"denom": "base", "amount": size.to_string()},
+                    }}}}))
+                }
+            } else {
+                ("base".to_string(), json!("Basic"))
+            };
             json!({"put_ask": {
-                "id": id, "owner": owner, "class": "Basic", "base": "base", "quote": "usd",
+                "id": id, "owner": owner, "class": class, "base": base, "quote": "usd",
                 "price": price, "size": size.to_string(),
             }})
         } else {
@@ -984,14 +1002,14 @@ impl Scn2 {
         }
     }
 
-    fn migrate_step(&self, rng: &mut Rng, ci: &Option<ContractInfoV3>) -> Value {
+    fn migrate_step(&self, rng: &mut Rng, ci: &Option<ConfigRec>) -> Value {
         let approvers = ci
             .as_ref()
             .map(|c| c.approvers.iter().map(|a| a.to_string()).collect::<Vec<_>>())
             .unwrap_or_default();
         let touch = |rng: &mut Rng| rng.chance(25);
         let a = if touch(rng) { self.list_variant(rng, &approvers, &["approver", "approver2", "stranger"]) } else { Value::Null };
-        let cur = |f: Option<&ats_smart_contract::common::FeeInfo>| f.map(|f| (f.account.to_string(), f.rate.clone()));
+        let cur = |f: Option<&FeeRec>| f.map(|f| (f.account.to_string(), f.rate.clone()));
         let (ar, aa) = if touch(rng) {
             self.fee_variant(rng, ci.as_ref().and_then(|c| cur(c.ask_fee_info.as_ref())))
         } else {
@@ -1025,8 +1043,8 @@ impl Scn2 {
 
     pub fn gen_step(&mut self, rng: &mut Rng, world: &World) -> Value {
         let book = world.book();
-        let asks: Vec<AskOrderV1> = book.v1_asks_by_key();
-        let bids: Vec<BidOrderV3> = book.v3_bids_by_key();
+        let asks: Vec<AskRec> = book.v1_asks_by_key();
+        let bids: Vec<BidRec> = book.v3_bids_by_key();
         let ci = world.contract_info();
 
         while let Some(p) = self.plan.pop_front() {
@@ -1046,14 +1064,9 @@ impl Scn2 {
             }
         }
 
-        let pending: Vec<&AskOrderV1> = asks
+        let pending: Vec<&AskRec> = asks
             .iter()
-            .filter(|a| {
-                matches!(
-                    a.class,
-                    AskOrderClass::Convertible { status: AskOrderStatus::PendingIssuerApproval }
-                )
-            })
+            .filter(|a| matches!(a.class, AskClass::Pending))
             .collect();
         let has_a = !asks.is_empty();
         let has_b = !bids.is_empty();
@@ -1090,18 +1103,18 @@ impl Scn2 {
             0 => self.match_step(rng, &ci, &asks, &bids),
             1 => {
                 let ask = rng.pick(&asks);
-                let lots = (ask.size.u128() / self.increment).max(1);
+                let lots = (ask.size / self.increment).max(1);
                 let size = match rng.below(10) {
                     0..=5 => Some(self.increment * rng.range(1, lots)),
-                    6 => Some(ask.size.u128() + 1),
-                    7 => Some(rng.range(0, ask.size.u128())),
+                    6 => Some(ask.size + 1),
+                    7 => Some(rng.range(0, ask.size)),
                     _ => None,
                 };
                 exec_step(self, rng, &exec, json!({"reject_ask": {"id": ask.id, "size": size.map(|s| s.to_string())}}))
             }
             2 => {
                 let bid = rng.pick(&bids);
-                let rem = bid.base.amount.u128().saturating_sub(bid.accumulated_base.u128());
+                let rem = bid.base.amount.saturating_sub(bid.accumulated_base);
                 let lots = (rem / self.increment).max(1);
                 let size = match rng.below(10) {
                     0..=5 => Some(self.increment * rng.range(1, lots)),
